@@ -24,6 +24,7 @@
 import Upnp.Lemmas.C06Main
 import Upnp.Lemmas.C06Url
 import Upnp.Gen.C06Types
+import Upnp.Model.C06Anc
 namespace Upnp.C06
 open Upnp.Gen
 
@@ -43,8 +44,8 @@ theorem ns_attr_pin : C06Types.nsAttrQuoted = true := by decide
 
 /-- the refusals are the library's error: both classes descend from `UpnpError` -/
 theorem exc_hierarchy_pin :
-    ((C06Types.excAncestors.lookup "UpnpError").getD []).contains "UpnpError" = true
-    ∧ ((C06Types.excAncestors.lookup "UpnpValueError").getD []).contains "UpnpError" = true := by decide
+    (genAnc "UpnpError").contains "UpnpError" = true
+    ∧ (genAnc "UpnpValueError").contains "UpnpError" = true := by decide
 
 /-! ### text level -/
 
@@ -176,7 +177,7 @@ theorem c06_model_ok (O : Oracles) (anc : String → List String) (a : ActionDec
 
 /-- the same, instantiated with the tables generated from the source -/
 theorem c06_model_ok_gen (O : Oracles) (a : ActionDecl) (kw : Kwargs) (H : Hyp O a kw) :
-    ok O a kw (modelObs (fun c => (C06Types.excAncestors.lookup c).getD [])
+    ok O a kw (modelObs genAnc
       (asyncCallSend O C06Types.escapeExtra C06Types.nsAttrQuoted a kw)) = true := by
   rw [escape_table_pin, ns_attr_pin]
   exact c06_model_ok O _ a kw exc_hierarchy_pin.1 exc_hierarchy_pin.2 H
